@@ -1379,6 +1379,36 @@ def gen_simd_kernels(repo):
     sk16 = ' ; '.join('%s(%s)' % (c, ' '.join(a.split())) for c, a in calls16 if not c.endswith('set_epi8'))
     out += '/-- %s: the row kernel: every intrinsic / helper call with its arguments, in textual order -/\n' % f16
     out += 'def vert_u16_sse4_skeleton : String := "%s"\n\n' % sk16.replace('"', '\\"')
+    # the AVX2 twin of the 16-bit vertical pass: 256-bit registers, both halves of every mask given separately
+    f16a = 'src/convolution/vertical_u16/avx2.rs'
+    with open(os.path.join(repo, f16a)) as fh:
+        src16a = fh.read()
+    m16a = re.search(r'unsafe fn vert_convolution_into_one_row_u16<.*?\n\}', src16a, re.S)
+    if not m16a:
+        raise TranslationError("%s: row kernel not found" % f16a)
+    body16a = re.sub(r'//[^\n]*', '', m16a.group(0))
+    body16a = re.sub(r'/\*.*?\*/', '', body16a, flags=re.S)
+    ms = re.search(r'let shuffles = \[(.*?)\];', body16a, re.S)
+    if not ms:
+        raise TranslationError("%s: shuffles not found" % f16a)
+    cs = re.findall(r'_mm_set_epi8\(([^()]*?)\)', ms.group(1), re.S)
+    if len(cs) != 8 or ms.group(1).count('_mm256_set_m128i') != 4:
+        raise TranslationError("%s: expected 4 x _mm256_set_m128i(hi, lo) in shuffles" % f16a)
+    halves = []
+    for a in cs:
+        vals = list(reversed([int(x) for x in a.replace('\n', ' ').split(',') if x.strip()]))
+        if len(vals) != 16:
+            raise TranslationError("%s: a shuffle half does not have 16 entries" % f16a)
+        halves.append(vals)
+    # _mm256_set_m128i(hi, lo): the first argument is the high half
+    out += '/-- %s: shuffles[i] as (low half, high half), byte 0 first -/\n' % f16a
+    out += 'def vert_u16_avx2_shuffles : List (List Int × List Int) := [%s]\n\n' % ', '.join(
+        '([%s], [%s])' % (', '.join(str(x) if x >= 0 else '(%d)' % x for x in halves[2 * i + 1]),
+                          ', '.join(str(x) if x >= 0 else '(%d)' % x for x in halves[2 * i])) for i in range(4))
+    calls16a = re.findall(r'\b(_mm(?:256)?_\w+(?:::<\w+>)?|simd_utils::\w+|chunks_exact_mut|into_remainder|iter_rows|normalizer\.clip|get_unchecked_mut|get_unchecked)\(([^()]*(?:\([^()]*\)[^()]*)*)\)', body16a)
+    sk16a = ' ; '.join('%s(%s)' % (c, ' '.join(a.split())) for c, a in calls16a if not c.endswith('set_epi8') and not c.endswith('set_m128i'))
+    out += '/-- %s: the row kernel: every intrinsic / helper call with its arguments, in textual order -/\n' % f16a
+    out += 'def vert_u16_avx2_skeleton : String := "%s"\n\n' % sk16a.replace('"', '\\"')
     # ... and its AVX2 twin: 256-bit in-lane instructions for the 32-component step, the SSE4.1 code for 8 and 4
     f = 'src/convolution/vertical_u8/avx2.rs'
     with open(os.path.join(repo, f)) as fh:
